@@ -22,6 +22,8 @@
 #include <cstring>
 #include <dlfcn.h>
 #include <unistd.h>
+#include <pthread.h>
+#include <signal.h>
 #include <sys/mman.h>
 
 using namespace photon;
@@ -198,10 +200,29 @@ static int run_ms(char mode, int seconds, uint32_t seed) {
 // the yielding thread.  The callback "pre-empts" the victim's OS thread there for 300 ms.
 static Rec g_yrec;
 static std::atomic<int> g_arm{0}, g_window{0};
+static pthread_t g_victim;
+static void f20_report(const char* how) {
+    char m[320];
+    snprintf(m, sizeof m, "F20-CONFIRMED %s: the yielding thread was taken by vCPU %d between thread_yield's run-queue "
+             "unlock and its context save, while vCPU 0 was still executing on its stack\n", how, vcpu_index(get_vcpu(g_yrec.th)));
+    (void)!write(1, m, strlen(m));
+    _exit(0);
+}
 static void yield_window_cb() {
+    if (!pthread_equal(pthread_self(), g_victim)) return;      // only the victim vCPU's OS thread is "pre-empted"
     if (g_arm.exchange(0) == 0) return;
     g_window.fetch_add(1);
-    ::usleep(300 * 1000);
+    for (int i = 0; i < 3000; i++) {                            // the OS thread is descheduled here for up to 300 ms
+        if (get_vcpu(g_yrec.th) != g_vcpu[0]) f20_report("stolen inside the window");
+        ::usleep(100);
+    }
+}
+// the thief resumes the stolen thread from its stale saved context on the stack vCPU 0 is still using:
+// whichever of the two OS threads trips first ends up here
+static void crash_handler(int sig) {
+    if (g_window.load() > 0 && g_yrec.th && get_vcpu(g_yrec.th) != g_vcpu[0]) f20_report(sig == SIGSEGV ? "SIGSEGV after the steal" : "fatal signal after the steal");
+    const char* m = "F20-UNRELATED-CRASH\n"; (void)!write(1, m, strlen(m));
+    _exit(3);
 }
 static void* yworker(void*) {
     Rec* r = &g_yrec;                 // (the stub zeroes thread::arg at the first start)
@@ -224,6 +245,13 @@ static int run_y(int seconds) {
     typedef void (*cb_t)();
     cb_t* slot = (cb_t*)dlsym(RTLD_DEFAULT, "photon_verif_c05_yield_window");
     if (!slot) { printf("F20-SKIPPED the library has no photon_verif_c05_yield_window hook\n"); return 0; }
+    g_victim = pthread_self();
+    {   // fatal-signal handler on an alternate stack, for every thread of the process
+        static char alt[1 << 16];
+        stack_t ss; ss.ss_sp = alt; ss.ss_size = sizeof alt; ss.ss_flags = 0; sigaltstack(&ss, nullptr);
+        struct sigaction sa; memset(&sa, 0, sizeof sa); sa.sa_handler = crash_handler; sa.sa_flags = SA_ONSTACK;
+        sigaction(SIGSEGV, &sa, nullptr); sigaction(SIGBUS, &sa, nullptr); sigaction(SIGILL, &sa, nullptr);
+    }
     *slot = &yield_window_cb;
     vcpu_init(VCPU_ENABLE_PASSIVE_WORK_STEALING);
     g_vcpu[0] = get_vcpu(); g_nv.fetch_add(1);
